@@ -422,9 +422,12 @@ func runCharSpecs(c *Ctx, prop, stream string, specs []*charCaseSpec, put putRun
 		if inits[i] {
 			// observation of the constructed object, in the model's terms
 			o := &stepObs{Value: s.cc.Initial, Cbs: []cbRec{{false, s.cc.Initial, nil}}}
-			for k, kind := range []string{"bool", "int", "float64", "string"} {
-				o.Getters[k] = fmt.Sprintf("%T", s.cc.Initial) != kind
-			}
+			// the four typed getters on the constructed object (F37: none of them panics, whatever is stored)
+			fresh := s.cc.C
+			_, o.Getters[0] = safely(func() { (&characteristic.Bool{Characteristic: fresh}).GetValue() })
+			_, o.Getters[1] = safely(func() { (&characteristic.Int{Characteristic: fresh}).GetValue() })
+			_, o.Getters[2] = safely(func() { (&characteristic.Float{Characteristic: fresh}).GetValue() })
+			_, o.Getters[3] = safely(func() { (&characteristic.String{Characteristic: fresh}).GetValue() })
 			implParts = append(implParts, obsLine(o))
 		}
 		nontriv := false
